@@ -13,6 +13,8 @@ ASSUMPTIONS = [
 ]
 FLAGS = {'F1_fixed': True, 'F2_fixed': True, 'F3_fixed': True, 'F4_fixed': True}      # switches F*_fixed are turned on here when a recorded defect has been repaired in /repo
 OPTS = dict(pack='*', lang='en', defs=docgen.DEFS)
+# the same catalogue without biblatex: \cite is then the built-in macro
+PACK_NO_BIBLATEX = 'amsmath,amsthm,babel,circuitikz,geometry,glossaries,glossaries-extra,graphicx,hyperref,inputenc,listings,mathtools,pgfplots,tikz,unicode-math,xcolor,xspace'
 
 
 def run_source(src, **extra):
@@ -24,7 +26,7 @@ def run_source(src, **extra):
     if not os.path.exists(f):
         with open(f, 'w', encoding='utf-8') as fh:
             fh.write(docgen.SED)
-        for name, data in (('zz-empty.tex', b''), ('zz-comment.tex', b'% only a comment\n'), ('zz-latin1.tex', b'\\newcommand{\\zzl}{gr\xf6\xdfer}\n')):
+        for name, data in (('zz-lang.tex', b'% ' + b'x' * 3000 + b'\n\\selectlanguage{german}\n'), ('zz-empty.tex', b''), ('zz-comment.tex', b'% only a comment\n'), ('zz-latin1.tex', b'\\newcommand{\\zzl}{gr\xf6\xdfer}\n')):
             with open(os.path.join(d, name), 'wb') as fh:
                 fh.write(data)
     with watchdog(20):
@@ -40,7 +42,7 @@ def make(pid, judge, nontrivial, classes, quick, thorough, strategy=None, flags=
         src = m.source()
         case = {'src': src}
         try:
-            plain, pos, err = run_source(src)
+            plain, pos, err = run_source(src, **({'pack': PACK_NO_BIBLATEX} if m.flags.get('no_biblatex') else {}))
         except Exception as e:
             raise Violation('exception:' + sut_frame(e), case, repr(e))
         v = refcheck.evaluate(m, plain, pos, err)
@@ -52,7 +54,9 @@ def make(pid, judge, nontrivial, classes, quick, thorough, strategy=None, flags=
 
     def run_shard(ctx):
         def check(doc):
-            m = docgen.build(doc, fl)
+            # every fourth document runs without biblatex (built-in \cite)
+            nb = len(repr(doc)) % 4 == 0
+            m = docgen.build(doc, dict(fl, no_biblatex=True) if nb else fl)
             try:
                 v = check_model(m)
             except Violation as e:
@@ -70,7 +74,9 @@ def make(pid, judge, nontrivial, classes, quick, thorough, strategy=None, flags=
     def replay(case):
         if case.get('doc') is None:
             return Violation('replay-needs-doc', case, 'replay file without document tree')
-        m = docgen.build(untuple(case['doc']), fl)
+        d = untuple(case['doc'])
+        nb = len(repr(d)) % 4 == 0
+        m = docgen.build(d, dict(fl, no_biblatex=True) if nb else fl)
         try:
             check_model(m)
         except Violation as v:
